@@ -48,6 +48,12 @@ def fixed_specs(tier, ctx):
             opl.append({"op": "gen_cli_bad", "params": dict(base, **{key: v}), "bad": key})
         for v in EDGE_OK:
             opl.append({"op": "gen_cli", "params": dict(base, **{key: v})})
+    # pairs of out-of-range sizes (a product or sum of both must not hide them)
+    for a in (0, -1, -3):
+        for b in (0, -1, -2):
+            opl.append({"op": "gen_cli_bad", "params": dict(base, width=a, length=b), "bad": "width+length"})
+    opl.append({"op": "gen_cli_bad", "params": dict(base, seed=-1, max_reward=-1), "bad": "seed+max_reward"})
+    opl.append({"op": "gen_cli_bad", "params": dict(base, rb=-0.5, lb=1.5), "bad": "rb+lb"})
     for m in (1, 1022, 1023, 1024, 100000):
         opl.append({"op": "gen_cli", "params": dict(base, max_reward=m)})
         opl.append({"op": "board", "params": dict(base, max_reward=m)})
@@ -70,6 +76,14 @@ def _bparams(rng):
 
 def gen(rng, tier, ctx):
     psets = [_bparams(rng) for _ in range(rng.randint(1, 4))]
+    if rng.random() < 0.4:
+        # a second parameter set that differs from the first only below one percent: same file name, other board
+        q = dict(psets[0])
+        key = rng.choice(["lt", "lt", "rb", "lb", "tb"])
+        k = int(q[key] * 100)
+        q[key] = min(0.999999, max(1e-9, (k + rng.choice([0.1, 0.3, 0.49, 0.7, 0.9])) / 100))
+        psets[0] = dict(psets[0], **{key: (k + 0.2) / 100 if k > 0 else 0.002})
+        psets.append(q)
     opl = []
     for _ in range(rng.randint(4, 30 if tier == "thorough" else 14)):
         r = rng.random()
@@ -102,8 +116,15 @@ def gen(rng, tier, ctx):
             key = rng.choice(["seed", "width", "length", "max_reward", "rb", "lb", "tb", "lt"])
             vals = BAD["prob"] if key in ("rb", "lb", "tb", "lt") else BAD[key]
             small = dict(p, width=min(p["width"], 4), length=min(p["length"], 4))
-            op = {"op": "gen_cli_bad", "params": dict(small, **{key: rng.choice(vals)}), "bad": key,
-                  "entropy": rng.randint(0, 2 ** 32)}
+            bp = dict(small, **{key: rng.choice(vals)})
+            bad = key
+            if rng.random() < 0.3:
+                # two parameters out of range at once (their errors must not cancel)
+                key2 = rng.choice([k_ for k_ in ("seed", "width", "length", "max_reward", "rb", "lb", "tb", "lt") if k_ != key])
+                vals2 = BAD["prob"] if key2 in ("rb", "lb", "tb", "lt") else BAD[key2]
+                bp[key2] = rng.choice(vals2)
+                bad = key + "+" + key2
+            op = {"op": "gen_cli_bad", "params": bp, "bad": bad, "entropy": rng.randint(0, 2 ** 32)}
         else:
             op = {"op": "restart", "entropy": rng.randint(0, 2 ** 32)}
         opl.append(op)
@@ -121,7 +142,7 @@ def simplify(spec):
         if "params" in op:
             p = op["params"]
             for key, small in (("width", 1), ("length", 1), ("seed", 0)):
-                if isinstance(p[key], int) and p[key] > small and op.get("bad") != key:
+                if isinstance(p[key], int) and p[key] > small and key not in str(op.get("bad")):
                     yield dict(spec, ops=ops_[:i] + [dict(op, params=dict(p, **{key: max(small, p[key] // 2)}))] + ops_[i + 1:])
             if p.get("force_down") :
                 yield dict(spec, ops=ops_[:i] + [dict(op, params=dict(p, force_down=False))] + ops_[i + 1:])
@@ -236,7 +257,7 @@ def execute(spec, w, ctx):
                 v = viol("I15.1", i_op, "`roberta_generator.py %s` (accepted parameters) did not finish: %s" % (
                     " ".join(ops.gen_argv(p)[1:]), genops.show(out)), "generator-crashed", etype=out.get("etype"))
             elif r["status"] == "ok":
-                mine = {k: after[k] for k in set(wopens) if k in after}
+                mine = {k: after[k] for k in genops.game_files(wopens)}
                 if mine != r["files"]:
                     v = viol("I15.2", i_op, "`roberta_generator.py %s` wrote %s; a fresh process with an empty disk writes %s" % (
                         " ".join(ops.gen_argv(p)[1:]), {k: h(v_) for k, v_ in mine.items()}, {k: h(v_) for k, v_ in r["files"].items()}),
@@ -252,9 +273,10 @@ def execute(spec, w, ctx):
             events.append([i_op, "gen_cli_bad", op.get("bad"), out["status"], out.get("etype"), changed, wopens])
             what = "`roberta_generator.py %s` (%s out of range)" % (" ".join(ops.gen_argv(p)[1:]), op.get("bad"))
             w.fired("out-of-range-" + str(op.get("bad")))
-            if wopens or changed:
+            opened_w = sorted({e[2] for e in out["fs_events"] if genops.is_write_open(e)})
+            if opened_w or changed:
                 v = viol("I15.3", i_op, "%s touched the disk before refusing: opened %s for writing, changed %s; outcome %s" % (
-                    what, wopens, changed, genops.show(out)), "wrote-before-refusal", bad=op.get("bad"))
+                    what, opened_w, changed, genops.show(out)), "wrote-before-refusal", bad=op.get("bad"))
             elif out["status"] == "ok":
                 v = viol("I15.3", i_op, "%s was accepted" % what, "accepted-out-of-range", bad=op.get("bad"))
             elif not (out["status"] == "exc" and out["etype"] == "ValueError"):
